@@ -635,6 +635,8 @@ package dnsmsg
 
 // ---- msg.go: Len and Pack ---------------------------------------------------------------------------
 
+// every OPT record of m packs into at most 400 bytes (the proxy's own OPT takes 11)
+//@ spec func optSmall(m *Msg) bool = forall(k, 0, len(m.Additionals), isOPT(m.Additionals[k]) ==> typeIs(m.Additionals[k], *RawResource) && len(ptrOf(m.Additionals[k], RawResource).Name) <= 254 && len(ptrOf(m.Additionals[k], RawResource).Data) <= 100)
 //@ spec func smallMsg(m *Msg) bool = len(m.Questions) <= 65536 && len(m.Answers) <= 65536 && len(m.Authorities) <= 65536 && len(m.Additionals) <= 65536
 //@ spec func secDone(m *Msg, o int) int = (o >= 0 ? len(m.Answers) : 0) + (o >= 1 ? len(m.Authorities) : 0) + (o >= 2 ? len(m.Additionals) : 0)
 
@@ -677,6 +679,7 @@ package dnsmsg
 //@   modifies b[0:len(b)], m.Additionals, obj(m.Additionals)
 //@   ensures err == nil ==> 12 <= n && n <= len(b)
 //@   ensures [C09:limit] err == nil && size > 0 && final(size) >= 12 ==> n <= (size < 512 ? 512 : size)
+//@   ensures [C09:limit-small-opt] err == nil && size > 0 && old(optSmall(m)) ==> n <= (size < 512 ? 512 : size)
 //@   ensures [C09:counts] err == nil ==> BE16(b, 4) == uint16(nQ) && BE16(b, 6) == uint16(nAn) && BE16(b, 8) == uint16(nNs)
 //@             && BE16(b, 10) == uint16(nAr + (final(edns0Opt) != nil ? 1 : 0))
 //@   ensures [C09:tc] err == nil && uint16(m.OpCode) < 16 && uint16(m.RCode) < 16 ==> ((BE16(b, 2) & 0x0200) != 0) == (m.Truncated || nQ < len(m.Questions) || nAn < len(m.Answers)
